@@ -73,7 +73,8 @@ class Circuit(tk.Circuit):
         """ Rename units in a circuit. """
         bits_to_rename = [
             old for old in renaming.keys()
-            if isinstance(old, Bit) and old.index[0] in self.post_selection]
+            if isinstance(old, Bit) and old.reg_name == "c"
+            and old.index[0] in self.post_selection]
         post_selection_renaming = {
             renaming[old].index[0]: self.post_selection[old.index[0]]
             for old in bits_to_rename}
